@@ -4,5 +4,6 @@ CONSTANTS
   Mode = "built"
   MaxDepth = 4
   Pads = {0, 1, 2, 38, 39, 158, 159}
+  Os = "linux"
 INVARIANTS WellFormed MatchesBuild Bounded Emit
 CHECK_DEADLOCK FALSE
